@@ -16,6 +16,10 @@ def run(ctx):
                         "multiprocessing (fork) and pickling of the fixture classes are trusted"]
     for cfg in ("Batch_C15.cfg", "Batch_C15_fail.cfg", "Batch_C15_serial.cfg"):
         ctx.model_check(_batch.MC, cfg)
+    if not q:
+        # deeper bounds: 10 tasks on 5 workers (15.0 M states, 72 s), and the same with three failing executions (0.7 M states)
+        for cfg in ("Batch_C15_thorough.cfg", "Batch_C15_fail_thorough.cfg"):
+            ctx.model_check(_batch.MC, cfg, timeout=3600)
     ctx.negative_control(_batch.MC, "Batch_C15_neg_drop.cfg", ("C15_ExactlyOnce", "C15_ErrorSurfaces"))
     # liveness: under fair workers every batch ends, with or without a failing execution (negative control: no fairness)
     ctx.model_check(_batch.MC, "Batch_C15_live.cfg")
